@@ -446,7 +446,9 @@ fn gen_case(rng: &mut Rng) -> Case {
     for i in 0..npost {
         // later sources often open a new namespace and re-use earlier rule names there
         if rng.chance(1, 2) { ns += 1; }
-        let name = if ns > 0 && rng.chance(1, 2) { format!("g{}", i) } else { format!("h{}", i) };
+        // sometimes a later rule takes the very name of the rule that failed: it must be free
+        let name = if exp_err && ns == bad_ns && !bad_ident.is_empty() && !kind.starts_with("three-linter") && i == 0 && rng.chance(1, 3) { format!("bad{}", npre) }
+                   else if ns > 0 && rng.chance(1, 2) { format!("g{}", i) } else { format!("h{}", i) };
         let fresh_in_ns = !pre.iter().zip(names.iter()).any(|(s, n)| s.ns == ns && *n == name)
             && !post.iter().any(|(s, n): &(Src, String)| s.ns == ns && *n == name);
         let name = if fresh_in_ns { name } else { format!("k{}_{}", ns, i) };
@@ -481,6 +483,20 @@ fn gen_case(rng: &mut Rng) -> Case {
         kind = format!("{}+in-included-file", kind);
         if let Some(p) = post.last_mut() { p.0.text = format!("include \"common.yar\"\n{}", p.0.text); }
         else { post.push((Src { ns, text: "include \"common.yar\"".to_string() }, "inc_only".to_string())); }
+    }
+    // in a quarter of the cases every source imports a module and every rule (the failing one too) calls it
+    let mut pre = pre; let mut probes = probes;
+    if rng.chance(1, 4) {
+        let with_mod = |t: &str| -> String {
+            if t.starts_with("include ") { return t.to_string(); }
+            let t = t.replace(" condition: ", " condition: math.abs(-1) == 1 and ");
+            format!("import \"math\" {}", t)
+        };
+        for s in pre.iter_mut() { s.text = with_mod(&s.text); }
+        for (s, _) in post.iter_mut() { s.text = with_mod(&s.text); }
+        for s in probes.iter_mut() { s.text = with_mod(&s.text); }
+        if files.is_empty() { bad.text = with_mod(&bad.text); } else { for f in files.iter_mut() { f.1 = with_mod(&f.1); } }
+        kind = format!("{}+module-calls", kind);
     }
     Case { pre, bad, post: post.into_iter().map(|p| p.0).collect(), probes, files, kind, slow_err, lint, ignore_mod, exp_errors, exp_ignored, exp_err }
 }
